@@ -58,9 +58,10 @@ Definition export_eqb (a b : export) : bool :=
   match a, b with XPrivate, XPrivate | XPublic, XPublic => true | _, _ => false end.
 
 (* as_bytes instantiated on a one-point native key: only the dispatch is observed *)
-Definition as_bytes_kind (raw_private : bool) (enc : encoding) (private : pv) : res export :=
+Definition as_bytes_kind (raw_private : bool) (enc : encoding) (private : pv) (pw : bool) : res export :=
   match as_bytes unit unit (fun _ => tt) (fun _ _ _ => [1]) (fun _ _ => [0])
-                 (if raw_private then RawPriv tt else RawPub tt) enc private None with
+                 (if raw_private then RawPriv tt else RawPub tt) enc private
+                 (if pw then Some [112; 119] else None) with
   | Ok [1] => Ok XPrivate
   | Ok _ => Ok XPublic
   | Err e => Err e
@@ -79,8 +80,8 @@ Inductive c12case :=
 | CEnsureKid (k : kind) (d : kd) (thumbs : list (kd * str)) (expect : res kd)
 (* alg.prepare_ephemeral_key(recipient) with recipient.ephemeral_key given: header written *)
 | CEpk (rk : kind) (eph : kind * bool * kd) (hdr : kd) (expect : res kd)
-(* key.as_bytes(encoding, private): which native export happened *)
-| CAsBytes (raw_private : bool) (enc : encoding) (private : pv) (expect : res export)
+(* key.as_bytes(encoding, private, password): which native export happened *)
+| CAsBytes (raw_private : bool) (enc : encoding) (private : pv) (pw : bool) (expect : res export)
 (* registry flags seen through the live class: (name, bool(private), required) *)
 | CFlags (k : kind) (flags : list (str * bool * bool)).
 
@@ -104,7 +105,7 @@ Definition c12_out (c : c12case) : res (list kd) + res export + list (str * bool
                           {| k_kind := rk; k_raw_private := true; k_dict := [] |}
                           (Some (mk_key eph)) hdr;
                 Ok [snd r]))
-  | CAsBytes rp enc private _ => inl (inr (as_bytes_kind rp enc private))
+  | CAsBytes rp enc private pw _ => inl (inr (as_bytes_kind rp enc private pw))
   | CFlags k _ => inr (reg_flags (value_registry k))
   end.
 
@@ -116,7 +117,7 @@ Definition c12_check (c : c12case) : bool :=
   | CThumbIn _ _ e, inl (inl r) => res_eqb (list_eqb kd_eqb) r (do o <- e; Ok [o])
   | CEnsureKid _ _ _ e, inl (inl r) => res_eqb (list_eqb kd_eqb) r (do o <- e; Ok [o])
   | CEpk _ _ _ e, inl (inl r) => res_eqb (list_eqb kd_eqb) r (do o <- e; Ok [o])
-  | CAsBytes _ _ _ e, inl (inr r) => res_eqb export_eqb r e
+  | CAsBytes _ _ _ _ e, inl (inr r) => res_eqb export_eqb r e
   | CFlags _ f, inr g => flags_eqb g f
   | _, _ => false
   end.
